@@ -863,12 +863,28 @@ func (c *Ctx) checkC01Routine(sites []labelSite) {
 				less := mc.Fn.(*ssa.Function)
 				nret := 0
 				okSort = true
+				// a method value (sorted.lessByWeight): look at the method behind the bound-method wrapper; its
+				// receiver must be the slice being sorted
+				if less.Synthetic != "" && strings.HasSuffix(less.Name(), "$bound") && len(mc.Bindings) == 1 {
+					var target *ssa.Function
+					eachInstr(less, func(in ssa.Instruction) {
+						if call, ok := in.(*ssa.Call); ok && call.Call.StaticCallee() != nil {
+							target = call.Call.StaticCallee()
+						}
+					})
+					if target == nil || target.Blocks == nil || len(target.Params) != 3 || stripConv(mc.Bindings[0]) != sorted {
+						okSort = false
+					} else {
+						less = target
+					}
+				}
 				eachInstr(less, func(in ssa.Instruction) {
 					if ret, ok := in.(*ssa.Return); ok {
 						nret++
 						got = pathOf(ret.Results[0])
 						bo, ok := ret.Results[0].(*ssa.BinOp)
-						if !ok || bo.Op != token.LSS || len(less.Params) != 2 || !weightOfElem(bo.X, less.Params[0]) || !weightOfElem(bo.Y, less.Params[1]) {
+						np := len(less.Params)
+						if !ok || bo.Op != token.LSS || np < 2 || np > 3 || !weightOfElem(bo.X, less.Params[np-2]) || !weightOfElem(bo.Y, less.Params[np-1]) {
 							okSort = false
 						}
 					}
@@ -1121,6 +1137,51 @@ func (c *Ctx) checkC01Draws() {
 		}
 		pos := f.Pos()
 		okk := ordered && fmt.Sprint(got) == fmt.Sprint(want)
+		if !okk && ordered {
+			// a draw moved into a same-package helper: compare with the helper's own draws spliced in at the call
+			var exp []string
+			inlinedOK := true
+			for _, s := range steps {
+				suffix := ""
+				for _, g := range guardsOf(f, s.in) {
+					for _, prm := range f.Params {
+						if b, ok := prm.Type().Underlying().(*types.Basic); ok && b.Info()&types.IsInteger != 0 && strings.Contains(g, "("+pname(prm)+" ") {
+							suffix += " if " + g
+						}
+					}
+				}
+				call, isCall := s.in.(*ssa.Call)
+				var h *ssa.Function
+				if isCall {
+					h = helperCallee(f, &call.Call)
+				}
+				if h == nil {
+					exp = append(exp, s.desc+suffix)
+					continue
+				}
+				pi := -1
+				for i, a := range call.Call.Args {
+					if a == rd || pathOf(a) == pathOf(rd) {
+						pi = i
+					}
+				}
+				if pi < 0 || pi >= len(h.Params) {
+					inlinedOK = false
+					break
+				}
+				sub, subOrdered := drawSeq(h, h.Params[pi])
+				if !subOrdered {
+					inlinedOK = false
+					break
+				}
+				for _, ss := range sub {
+					exp = append(exp, ss.desc+suffix)
+				}
+			}
+			if inlinedOK && fmt.Sprint(exp) == fmt.Sprint(want) {
+				okk, got = true, exp
+			}
+		}
 		r.Check(okk, "C01.4", fnName(f)+": draw order "+what, pos, fnName(f), strings.Join(got, " ; "),
 			fmt.Sprintf("the draws from the derivation stream in %s are %v (path-independent: %v), the published order is %v: every value drawn after the first difference changes", fnName(f), got, ordered, want))
 	}
